@@ -13,6 +13,7 @@ import (
 	"github.com/tjfoc/gmsm/gmtls"
 	"github.com/tjfoc/gmsm/zzverif/vsched"
 
+	"verif/mc/ref/gmref"
 	"verif/mc/tlsk"
 	"verif/mc/wire"
 )
@@ -391,4 +392,91 @@ func rd2() []func(interface{}) interface{} {
 		return string(buf[:n])
 	}
 	return []func(interface{}) interface{}{f, f}
+}
+
+// ---- a renegotiation on a connection that another goroutine writes to ------------------------------
+
+// renegWorld: a TLS 1.2 client that allows renegotiation, connected (outside the controlled
+// execution) to the scripted reference server; inside the execution the server asks for a
+// renegotiation while one goroutine reads and another writes.
+type renegWorld struct {
+	cl  *gmtls.Conn
+	srv *gmref.Peer
+}
+
+func newRenegWorld(suite uint16) *renegWorld {
+	p := tlsk.Get()
+	a, b := newMemPair()
+	cc := &gmtls.Config{RootCAs: p.StdRootsG, ServerName: tlsk.ServerName, Time: tlsk.FixedTime, Rand: wire.NewRand(8), MinVersion: 0x0303, MaxVersion: 0x0303, CipherSuites: []uint16{suite}, Renegotiation: gmtls.RenegotiateFreelyAsClient}
+	w := &renegWorld{cl: gmtls.Client(a, cc)}
+	w.srv = gmref.New(b, false, gmref.Identity{Certs: [][]byte{p.RSA.Certificate[0]}, RSAKey: p.RSAKey}, wire.NewRand(9))
+	w.srv.UseTLS()
+	w.srv.Suites = []uint16{suite}
+	w.srv.EchoRenegInfo = true
+	ch := make(chan gmref.Result, 1)
+	go func() { ch <- w.srv.Run(&gmref.Script{}) }()
+	if err := w.cl.Handshake(); err != nil {
+		panic(err)
+	}
+	if r := <-ch; r.Err != nil || !r.Completed {
+		panic(fmt.Sprintf("reference server: %+v", r))
+	}
+	return w
+}
+
+func renegScenarios() []scenario {
+	var out []scenario
+	for _, suite := range []uint16{gmref.SuiteAESCBC, gmref.SuiteAESGCM} {
+		suite := suite
+		out = append(out, scenario{name: fmt.Sprintf("one-conn-renegotiation-read-write/%04x", suite), bound: 1, boundT: 2,
+			setup: func() interface{} { return newRenegWorld(suite) },
+			threads: []func(interface{}) interface{}{
+				func(st interface{}) interface{} { // reader: the renegotiation happens inside these Read calls
+					w := st.(*renegWorld)
+					var got []byte
+					buf := make([]byte, 16)
+					for len(got) < 8 {
+						n, err := w.cl.Read(buf)
+						got = append(got, buf[:n]...)
+						if err != nil {
+							return fmt.Sprint(string(got), " ", err)
+						}
+					}
+					return string(got)
+				},
+				func(st interface{}) interface{} { // writer
+					w := st.(*renegWorld)
+					n, err := w.cl.Write([]byte("AAAAA"))
+					if err != nil {
+						w.cl.Close() // lets the server's read end instead of leaving everybody waiting
+					}
+					return fmt.Sprint(n, err)
+				},
+				func(st interface{}) interface{} { // the scripted server
+					q := st.(*renegWorld).srv
+					if err := q.WriteRecord(gmref.RecApp, []byte("pre-")); err != nil {
+						return err.Error()
+					}
+					if r := q.RenegotiateServer(&gmref.Script{}, true); r.Err != nil || !r.Completed {
+						return fmt.Sprintf("renegotiation: %+v", r)
+					}
+					if err := q.WriteRecord(gmref.RecApp, []byte("post")); err != nil {
+						return err.Error()
+					}
+					for len(q.Received) < 5 {
+						if err := q.ReadApp(5); err != nil {
+							return fmt.Sprintf("server read %q then %v", q.Received, err)
+						}
+					}
+					return string(q.Received)
+				},
+			},
+			accept: func(st interface{}, res []interface{}) string {
+				if fmt.Sprint(res[0]) != "pre-post" || fmt.Sprint(res[1]) != "5 <nil>" || fmt.Sprint(res[2]) != "AAAAA" {
+					return fmt.Sprintf("reader got %v, writer got %v, the server %v; every sequential order of Read and Write gives \"pre-post\", \"5 <nil>\", \"AAAAA\"", res[0], res[1], res[2])
+				}
+				return ""
+			}})
+	}
+	return out
 }
